@@ -734,6 +734,14 @@ func Join(locs ...Location) Location {
 				}
 				j++
 			}
+			// (Only for runs of ranges, where merging neighbours gives the same
+			// list in whatever order it is done; the reductions that involve
+			// points and sites depend on the order and keep going pair by pair.)
+			for k := i; k <= j; k++ {
+				if _, ok := locs[k].(Complemented).Location.(Ranged); !ok {
+					j = i
+				}
+			}
 			if j > i+1 {
 				inner := make([]Location, 0, j-i+1)
 				for k := j; k >= i; k-- {
